@@ -6,6 +6,7 @@ import re
 from ..fdai import Engine, Plugin, freeze, thaw
 from ..fold import NotConst, Regex
 from ..model import AnalysisError, U, walk_no_nested, parent
+from ..tables import INF as INF_
 from ..tables import (Tables, shape_of, shapes_intersect, star_height,
                       group_literal_items, INF, DIGITS)
 
@@ -196,19 +197,29 @@ def r23_table_rw(ctx):
     cf = ctx.func("parsers.TimePointParser._create_timepoint_from_info")
     zf = ctx.func("parsers.TimePointParser.process_time_zone_info")
     removed = set()
+    from ..flow import path_conds as _pc
     for f in (cf, zf):
         for n in walk_no_nested(f.node):
+            keys_ = []
             if isinstance(n, ast.Call) and isinstance(
                     n.func, ast.Attribute) and n.func.attr == "pop" and \
                     n.args:
-                a = n.args[0]
+                keys_.append(n.args[0])
+            elif isinstance(n, ast.Delete):
+                keys_ += [t.slice for t in n.targets
+                          if isinstance(t, ast.Subscript)]
+            for a in keys_:
                 if isinstance(a, ast.Constant) and isinstance(a.value, str):
                     removed.add(a.value)
                 elif isinstance(a, ast.Name):
-                    # pop(key) under `if key == "const"`
-                    for anc in _ancestors_if(n):
-                        for c in ast.walk(anc.test):
-                            if isinstance(c, ast.Compare) and \
+                    # pop(key) / del m[key] where `key == "const"` holds
+                    for t, pol in _pc(n):
+                        if not pol:
+                            continue
+                        for c in ast.walk(t):
+                            if isinstance(c, ast.Compare) and len(
+                                    c.ops) == 1 and isinstance(
+                                        c.ops[0], ast.Eq) and \
                                     U(c.left) == a.id and isinstance(
                                         c.comparators[0], ast.Constant):
                                 removed.add(c.comparators[0].value)
@@ -419,6 +430,17 @@ def r24_form_shapes(ctx):
                 if got != want:
                     problems.append("captures %s, the documented tokens "
                                     "spell %s" % (sorted(got), sorted(want)))
+                # a decimal fraction is any number of digits (the property
+                # quantifies over 1 to 9; the dumper writes up to 6 but
+                # other writers more)
+                for cs, lo, hi, g in items:
+                    if g is not None and g.endswith("_decimal") and (
+                            lo > 1 or hi < 9):
+                        problems.append(
+                            "the fraction group %s takes %s..%s digits: a "
+                            "decimal fraction of up to nine digits (and "
+                            "more) is documented" % (
+                                g, lo, "unbounded" if hi >= INF_ else hi))
                 rep.check(not problems, rule, key + (
                     ":n=%d" % n if "X" in expr else ""), "parser_spec.py",
                     "%s form %s tokenises completely into %s" % (
